@@ -1,6 +1,8 @@
-(** C14 -- proofs about the Matrix index and the array data frame (Model/MatrixIx.v).
+(** C14 -- proofs about the Matrix index and the array data frame (Model/MatrixIx.v), UNBOUNDED version
+    of Proofs/MatrixIxP.v: the calendar facts come from Proofs/CalendarP.v (all month ids >= MINID, the
+    month id of 0001-01), so the only calendar side conditions left are lower bounds `MINID <= id`.
 
-    1. calendar facts on month ids 0..1571 (1970-01 .. 2100-12), by enumeration;
+    1. calendar facts (thin wrappers around CalendarP, same names as in MatrixIxP.v);
     2. resolve_* / unresolve_* are inverse on grid points (any step kind), the F12 witness for
        mixed steps;
     3. a grid cell's indices turn back into its coordinates;
@@ -10,11 +12,12 @@
        matrix_round_trip_nested with the conditions derived from index_from_triangle). *)
 From Coq Require Import ZArith List Bool Lia ZifyBool Permutation.
 From Bermuda Require Import Model.Base Lib.Calendar Model.Frame Model.MatrixIx.
+From Bermuda Require Export Proofs.CalendarP.
 Import ListNotations.
 Local Open Scope Z_scope.
 
 (* ====================================================================================== *)
-(** * 1. Calendar facts by enumeration over the month ids 0..1571 *)
+(** * 1. Calendar facts: wrappers around Proofs/CalendarP.v (month ids >= MINID = -23628) *)
 
 Lemma forallb_zrange_lift (P : Z -> bool) (n : nat) :
   forallb P (map Z.of_nat (seq 0 n)) = true ->
@@ -26,87 +29,39 @@ Proof.
   apply in_seq. lia.
 Qed.
 
-Definition month_ids : list Z := map Z.of_nat (seq 0 1572).
-
-Lemma month_ids_lift (P : Z -> bool) :
-  forallb P month_ids = true -> forall i, 0 <= i <= 1571 -> P i = true.
-Proof. intros H i Hi. apply (forallb_zrange_lift P 1572 H). lia. Qed.
-
-(* the facts are stated as literal lambdas so that lifting needs only a beta step (unfolding a
-   named predicate makes the kernel normalise calendar terms on a symbolic id at Qed time) *)
-Lemma cal_fact_ids_all :
-  forallb (fun i => (month_id (month_start i) =? i) && (month_id (month_end i) =? i)) month_ids = true.
-Proof. vm_compute. reflexivity. Qed.
-Lemma cal_fact_ends_all :
-  forallb (fun i => is_month_end (month_end i) && negb (is_month_end (month_start i))
-                    && (day_of (month_start i) =? 1)) month_ids = true.
-Proof. vm_compute. reflexivity. Qed.
-Lemma cal_fact_dim_all :
-  forallb (fun i => 28 <=? days_in_month (1970 + i / 12) (i mod 12 + 1)) month_ids = true.
-Proof. vm_compute. reflexivity. Qed.
-
-Lemma month_id_start : forall i, 0 <= i <= 1571 -> month_id (month_start i) = i.
-Proof.
-  intros i Hi. pose proof (month_ids_lift _ cal_fact_ids_all i Hi) as H.
-  cbv beta in H. apply andb_true_iff in H. destruct H as [H _].
-  apply Z.eqb_eq in H. exact H.
-Qed.
-Lemma month_id_end : forall i, 0 <= i <= 1571 -> month_id (month_end i) = i.
-Proof.
-  intros i Hi. pose proof (month_ids_lift _ cal_fact_ids_all i Hi) as H.
-  cbv beta in H. apply andb_true_iff in H. destruct H as [_ H].
-  apply Z.eqb_eq in H. exact H.
-Qed.
-Lemma month_end_is_end : forall i, 0 <= i <= 1571 -> is_month_end (month_end i) = true.
-Proof.
-  intros i Hi. pose proof (month_ids_lift _ cal_fact_ends_all i Hi) as H.
-  cbv beta in H. rewrite !andb_true_iff in H. tauto.
-Qed.
-Lemma month_start_not_end : forall i, 0 <= i <= 1571 ->
+Lemma month_id_start : forall i, MINID <= i -> month_id (month_start i) = i.
+Proof. exact month_id_month_start. Qed.
+Lemma month_id_end : forall i, MINID <= i -> month_id (month_end i) = i.
+Proof. exact month_id_month_end. Qed.
+Lemma month_end_is_end : forall i, MINID <= i -> is_month_end (month_end i) = true.
+Proof. exact is_month_end_month_end. Qed.
+Lemma month_start_not_end : forall i, MINID <= i ->
   is_month_end (month_start i) = false /\ day_of (month_start i) = 1.
-Proof.
-  intros i Hi. pose proof (month_ids_lift _ cal_fact_ends_all i Hi) as H.
-  cbv beta in H. rewrite !andb_true_iff in H. destruct H as [[_ H1] H2].
-  split; [apply negb_true_iff; exact H1 | apply Z.eqb_eq; exact H2].
-Qed.
-Lemma month_start_is_start : forall i, 0 <= i <= 1571 -> is_month_start (month_start i) = true.
-Proof.
-  intros i Hi. unfold is_month_start. destruct (month_start_not_end i Hi) as [_ H].
-  rewrite H. reflexivity.
-Qed.
-Lemma days_in_month_ge_28 : forall i, 0 <= i <= 1571 ->
-  28 <= days_in_month (1970 + i / 12) (i mod 12 + 1).
-Proof.
-  intros i Hi. pose proof (month_ids_lift _ cal_fact_dim_all i Hi) as H.
-  cbv beta in H. apply Z.leb_le in H. exact H.
-Qed.
+Proof. intros i Hi. split; [apply is_month_end_month_start|apply day_of_month_start]; exact Hi. Qed.
+Lemma month_start_is_start : forall i, MINID <= i -> is_month_start (month_start i) = true.
+Proof. exact is_month_start_month_start. Qed.
 
-Lemma addm_month_end : forall i k, 0 <= i <= 1571 -> 0 <= i + k <= 1571 ->
-  addm (month_end i) k = month_end (i + k).
-Proof.
-  intros i k Hi _. unfold addm.
-  rewrite (month_end_is_end i Hi), (month_id_end i Hi). reflexivity.
-Qed.
-Lemma addm_month_start : forall i k, 0 <= i <= 1571 -> 0 <= i + k <= 1571 ->
-  addm (month_start i) k = month_start (i + k).
-Proof.
-  intros i k Hi Hk. unfold addm.
-  destruct (month_start_not_end i Hi) as [H1 H2].
-  rewrite H1, H2, (month_id_start i Hi).
-  pose proof (days_in_month_ge_28 (i + k) Hk) as Hd.
-  rewrite Z.min_l by lia. reflexivity.
-Qed.
-Lemma lag_months_ends : forall a b, 0 <= a <= 1571 -> 0 <= b <= 1571 ->
+Lemma addm_month_end : forall i k, MINID <= i -> addm (month_end i) k = month_end (i + k).
+Proof. intros i k Hi. apply CalendarP.addm_month_end. exact Hi. Qed.
+Lemma addm_month_start : forall i k, MINID <= i -> addm (month_start i) k = month_start (i + k).
+Proof. intros i k Hi. apply CalendarP.addm_month_start. exact Hi. Qed.
+Lemma lag_months_ends : forall a b, MINID <= a -> MINID <= b ->
   lag_months (month_end a) (month_end b) = b - a.
-Proof.
-  intros a b Ha Hb. unfold lag_months. rewrite (month_id_end a Ha), (month_id_end b Hb). reflexivity.
-Qed.
+Proof. exact lag_months_month_ends. Qed.
 (* the period end computed by from_array: addm ps r - 1 *)
-Lemma addm_start_pred_is_end : forall i r, 0 <= i <= 1571 -> 0 <= i + r <= 1571 ->
+Lemma addm_start_pred_is_end : forall i r, MINID <= i ->
   addm (month_start i) r - 1 = month_end (i + r - 1).
 Proof.
-  intros i r Hi Hr. rewrite (addm_month_start i r Hi Hr). unfold month_end.
+  intros i r Hi. rewrite (addm_month_start i r Hi). unfold month_end.
   replace (i + r - 1 + 1) with (i + r) by lia. reflexivity.
+Qed.
+Lemma month_start_lt : forall a b, a < b -> month_start a < month_start b.
+Proof. exact month_start_strict_mono. Qed.
+Lemma month_start_inj : forall a b, month_start a = month_start b -> a = b.
+Proof. exact CalendarP.month_start_inj. Qed.
+Lemma month_end_inj : forall a b, month_end a = month_end b -> a = b.
+Proof.
+  intros a b E. unfold month_end in E. assert (H : a + 1 = b + 1) by (apply month_start_inj; lia). lia.
 Qed.
 
 (* ====================================================================================== *)
@@ -172,7 +127,7 @@ Proof.
 Qed.
 
 Lemma resolve_unresolve_exp : forall ix n, 0 < exp_res ix -> 0 <= n ->
-  0 <= exp_origin ix + n * exp_res ix <= 1571 ->
+  MINID <= exp_origin ix + n * exp_res ix ->
   resolve_exp ix (unresolve_exp_start ix n) = Ok n.
 Proof.
   intros ix n He Hn Hr. unfold resolve_exp, unresolve_exp_start.
@@ -182,7 +137,7 @@ Proof.
   destruct (n <? 0) eqn:E; [lia | reflexivity].
 Qed.
 
-Lemma unresolve_resolve_exp : forall ix s, 0 < exp_res ix -> exp_origin ix <= s -> 0 <= s <= 1571 ->
+Lemma unresolve_resolve_exp : forall ix s, 0 < exp_res ix -> exp_origin ix <= s -> MINID <= s ->
   (exp_res ix | s - exp_origin ix) ->
   exists p, resolve_exp ix (month_start s) = Ok p /\ 0 <= p /\ exp_origin ix + p * exp_res ix = s.
 Proof.
@@ -199,15 +154,14 @@ Lemma coords_roundtrip : forall k ix s lag,
   0 < exp_res ix -> 0 < step_of k ix ->
   (exp_res ix | s - exp_origin ix) -> exp_origin ix <= s ->
   dev_origin ix <= lag -> (step_of k ix | lag - dev_origin ix) ->
-  0 <= s -> 0 <= s + exp_res ix - 1 + lag -> s + exp_res ix - 1 <= 1571 ->
-  s + exp_res ix - 1 + lag <= 1571 ->
+  MINID <= s ->
   exists p d,
     resolve_exp ix (month_start s) = Ok p /\ resolve_dev k ix lag = Ok d /\
     cell_coords_from_index k ix p d
     = (month_start s, month_end (s + exp_res ix - 1), month_end (s + exp_res ix - 1 + lag)).
 Proof.
-  intros k ix s lag He Hk De Ho Hl Dl Hs0 Hev0 Hpe Hev.
-  destruct (unresolve_resolve_exp ix s He Ho ltac:(lia) De) as [p [Ep [Hp Up]]].
+  intros k ix s lag He Hk De Ho Hl Dl Hs0.
+  destruct (unresolve_resolve_exp ix s He Ho Hs0 De) as [p [Ep [Hp Up]]].
   destruct (unresolve_resolve_dev k ix lag Hk Hl Dl) as [d [Ed [Hd Ud]]].
   exists p, d. repeat split; try assumption.
   unfold cell_coords_from_index, unresolve_exp_start, unresolve_exp_end.
@@ -235,10 +189,10 @@ Definition aframe_cells (f : str) (m : meta) (res : Z) (lags : list Z)
            (rows : list (Z * list (option Z))) : list cell :=
   flat_map (fun r => arow_cells_opt f m res (fst r) (combine lags (snd r))) rows.
 
-(* side conditions of one row: period [s, s+res-1] and every evaluation month inside 1970-2100 *)
+(* side conditions of one row: period start and period end not before 0001-01 (the header `lags` is
+   kept as an argument only for compatibility with Proofs/MatrixIxP.v; no condition on the lags) *)
 Definition arow_ok (res : Z) (lags : list Z) (s : Z) : Prop :=
-  0 <= s <= 1571 /\ 0 <= s + res - 1 /\ s + res <= 1571 /\
-  Forall (fun lag => 0 <= s + res - 1 + lag <= 1571) lags.
+  MINID <= s /\ MINID <= s + res - 1.
 
 Lemma arow_cells_opt_some : forall f m res s lags vals,
   arow_cells_opt f m res s (combine lags (map Some vals)) = arow_cells f m res s (combine lags vals).
@@ -261,7 +215,7 @@ Lemma from_array_cons : forall lags row rows f r m,
 Proof. intros. apply (from_array_app lags [row] rows). Qed.
 
 Lemma from_array_row_body : forall f m ps e lags (ovals : list (option Z)),
-  0 <= e <= 1571 -> Forall (fun lag => 0 <= e + lag <= 1571) lags ->
+  MINID <= e ->
   flat_map (fun hv : Z * option Z =>
               match snd hv with
               | Some x => [mkCell KCum ps (month_end e) (addm (month_end e) (fst hv)) None m
@@ -276,11 +230,10 @@ Lemma from_array_row_body : forall f m ps e lags (ovals : list (option Z)),
               end) (combine lags ovals).
 Proof.
   intros f m ps e lags ovals He. revert ovals.
-  induction lags as [|l lags IH]; intros ovals HF; [reflexivity|].
+  induction lags as [|l lags IH]; intros ovals; [reflexivity|].
   destruct ovals as [|o ovals]; [reflexivity|].
-  inversion HF as [|? ? Hl HF']; subst.
-  cbn [combine flat_map fst snd]. rewrite (IH ovals HF').
-  rewrite (addm_month_end e l He Hl). reflexivity.
+  cbn [combine flat_map fst snd]. rewrite (IH ovals).
+  rewrite (addm_month_end e l He). reflexivity.
 Qed.
 
 Lemma from_array_row_opt : forall f m res s lags ovals,
@@ -288,11 +241,11 @@ Lemma from_array_row_opt : forall f m res s lags ovals,
   from_array (mkAF lags [(month_start s, ovals)]) f res m
   = arow_cells_opt f m res s (combine lags ovals).
 Proof.
-  intros f m res s lags ovals (Hs & Hpe & Hn & HF).
+  intros f m res s lags ovals (Hs & Hpe).
   unfold from_array, arow_cells_opt. cbn [af_rows af_lags flat_map fst snd].
   rewrite app_nil_r.
-  rewrite (addm_start_pred_is_end s res) by lia.
-  apply from_array_row_body; [lia | exact HF].
+  rewrite (addm_start_pred_is_end s res) by exact Hs.
+  apply from_array_row_body. exact Hpe.
 Qed.
 
 Lemma from_array_row : forall f m res s lags vals,
@@ -320,8 +273,8 @@ Qed.
 
 (* every rebuilt cell carries its lag: cell_lag reads back the column name *)
 Lemma arow_cells_opt_lag : forall f m res s lv c,
-  0 <= s + res - 1 <= 1571 ->
-  Forall (fun hv => 0 <= s + res - 1 + fst hv <= 1571) lv ->
+  MINID <= s + res - 1 ->
+  Forall (fun hv => MINID <= s + res - 1 + fst hv) lv ->
   In c (arow_cells_opt f m res s lv) ->
   exists lag x, In (lag, Some x) lv /\ cell_lag c = lag /\ ps c = month_start s /\
                 pe c = month_end (s + res - 1) /\ cvals c = [(f, VNum (Num true x))].
@@ -749,28 +702,6 @@ Proof.
   - right. right. exact H.
 Qed.
 
-(* month_start is strictly increasing on 0..1571 *)
-Lemma cal_fact_mono_all :
-  forallb (fun i => month_start i <? month_start (i + 1)) month_ids = true.
-Proof. vm_compute. reflexivity. Qed.
-Lemma month_start_lt : forall a b, 0 <= a -> a < b -> b <= 1572 -> month_start a < month_start b.
-Proof.
-  intros a b Ha Hab Hb.
-  assert (H : forall n : nat, a + 1 + Z.of_nat n <= 1572 -> month_start a < month_start (a + 1 + Z.of_nat n)).
-  { induction n as [|n IH]; intros Hn.
-    - pose proof (month_ids_lift _ cal_fact_mono_all a ltac:(lia)) as H. cbv beta in H.
-      replace (a + 1 + Z.of_nat 0) with (a + 1) by lia. lia.
-    - pose proof (month_ids_lift _ cal_fact_mono_all (a + 1 + Z.of_nat n) ltac:(lia)) as H. cbv beta in H.
-      replace (a + 1 + Z.of_nat (S n)) with (a + 1 + Z.of_nat n + 1) by lia.
-      specialize (IH ltac:(lia)). lia. }
-  specialize (H (Z.to_nat (b - a - 1)) ltac:(lia)).
-  replace (a + 1 + Z.of_nat (Z.to_nat (b - a - 1))) with b in H by lia. exact H.
-Qed.
-Lemma month_start_inj : forall a b, 0 <= a <= 1571 -> 0 <= b <= 1571 -> month_start a = month_start b -> a = b.
-Proof. intros a b Ha Hb E. rewrite <- (month_id_start a Ha), <- (month_id_start b Hb), E. reflexivity. Qed.
-Lemma month_end_inj : forall a b, 0 <= a <= 1571 -> 0 <= b <= 1571 -> month_end a = month_end b -> a = b.
-Proof. intros a b Ha Hb E. rewrite <- (month_id_end a Ha), <- (month_id_end b Hb), E. reflexivity. Qed.
-
 (* ====================================================================================== *)
 (** * 5c. What triangle_to_matrix writes and what a look-up returns *)
 
@@ -931,7 +862,7 @@ Definition cell_ok (k : stepkind) (ix : mindex) (c : cell) : Prop :=
   exists s lag,
     ps c = month_start s /\ pe c = month_end (s + exp_res ix - 1) /\
     ev c = month_end (s + exp_res ix - 1 + lag) /\
-    0 <= s /\ 0 <= s + exp_res ix - 1 + lag <= 1571 /\ s + exp_res ix - 1 <= 1571 /\
+    MINID <= s /\ MINID <= s + exp_res ix - 1 + lag /\
     exp_origin ix <= s /\ (exp_res ix | s - exp_origin ix) /\
     dev_origin ix <= lag /\ (step_of k ix | lag - dev_origin ix) /\
     ckind c = KCum /\ prev c = None /\
@@ -957,16 +888,16 @@ Section MatrixCell.
     exists s lag,
       ps c = month_start s /\ pe c = month_end (s + exp_res ix - 1) /\
       ev c = month_end (s + exp_res ix - 1 + lag) /\
-      0 <= s /\ 0 <= s + exp_res ix - 1 + lag <= 1571 /\ s + exp_res ix - 1 <= 1571 /\
+      MINID <= s /\ MINID <= s + exp_res ix - 1 + lag /\
       cell_lag c = lag /\
       resolve_exp ix (ps c) = Ok (p_of' c) /\ resolve_dev k ix (cell_lag c) = Ok (d_of' c) /\
       0 <= p_of' c /\ 0 <= d_of' c /\
       s = exp_origin ix + p_of' c * exp_res ix /\ lag = dev_origin ix + d_of' c * step_of k ix.
   Proof.
-    intros c (s & lag & Hps & Hpe & Hev & Hs & Hr1 & Hr2 & Ho & De & Hl & Dl & _).
+    intros c (s & lag & Hps & Hpe & Hev & Hs & Hr1 & Ho & De & Hl & Dl & _).
     assert (Hlag : cell_lag c = lag).
     { unfold cell_lag. rewrite Hpe, Hev, lag_months_ends by lia. lia. }
-    destruct (unresolve_resolve_exp ix s Hres Ho ltac:(lia) De) as [p [Ep [Hp Up]]].
+    destruct (unresolve_resolve_exp ix s Hres Ho Hs De) as [p [Ep [Hp Up]]].
     destruct (unresolve_resolve_dev k ix lag Hstep Hl Dl) as [d [Ed [Hd Ud]]].
     unfold unresolve_dev in Ud.
     exists s, lag. unfold p_of, d_of. rewrite Hlag, Hps, Ep, Ed.
@@ -975,8 +906,8 @@ Section MatrixCell.
 
   Lemma cell_ok_writable : forall c, cell_ok k ix c -> writable ix k c.
   Proof.
-    intros c Hc. destruct (cell_ok_keys c Hc) as (s & lag & _ & _ & _ & _ & _ & _ & _ & Ep & Ed & _).
-    destruct Hc as (_ & _ & _ & _ & _ & _ & _ & _ & _ & _ & _ & _ & _ & _ & Hf & Hv & _ & Hm).
+    intros c Hc. destruct (cell_ok_keys c Hc) as (s & lag & _ & _ & _ & _ & _ & _ & Ep & Ed & _).
+    destruct Hc as (_ & _ & _ & _ & _ & _ & _ & _ & _ & _ & _ & _ & _ & Hf & Hv & _ & Hm).
     split; [exact Hm|]. split; [eexists; exact Ep|]. split; [eexists; exact Ed|].
     rewrite Forall_forall in *. intros fv Hfv. split; [|apply Hv; exact Hfv].
     rewrite <- Hf. apply in_map. exact Hfv.
@@ -986,10 +917,10 @@ Section MatrixCell.
     cmeta c = cmeta c' /\ ps c = ps c' /\ ev c = ev c'.
   Proof.
     intros c c' Hc Hc' E.
-    destruct (cell_ok_keys c Hc) as (s & lag & Hps & _ & Hev & _ & _ & _ & _ & _ & _ & _ & _ & Us & Ul).
-    destruct (cell_ok_keys c' Hc') as (s' & lag' & Hps' & _ & Hev' & _ & _ & _ & _ & _ & _ & _ & _ & Us' & Ul').
-    destruct Hc as (_ & _ & _ & _ & _ & _ & _ & _ & _ & _ & _ & _ & _ & _ & _ & _ & _ & Hm).
-    destruct Hc' as (_ & _ & _ & _ & _ & _ & _ & _ & _ & _ & _ & _ & _ & _ & _ & _ & _ & Hm').
+    destruct (cell_ok_keys c Hc) as (s & lag & Hps & _ & Hev & _ & _ & _ & _ & _ & _ & _ & Us & Ul).
+    destruct (cell_ok_keys c' Hc') as (s' & lag' & Hps' & _ & Hev' & _ & _ & _ & _ & _ & _ & _ & Us' & Ul').
+    destruct Hc as (_ & _ & _ & _ & _ & _ & _ & _ & _ & _ & _ & _ & _ & _ & _ & _ & Hm).
+    destruct Hc' as (_ & _ & _ & _ & _ & _ & _ & _ & _ & _ & _ & _ & _ & _ & _ & _ & Hm').
     unfold ckey in E. inversion E as [[E1 E2 E3]].
     split; [apply (idx_inj meta_seqb mx_meta_seqb_eq (ix_slices ix)); assumption|].
     rewrite Hps, Hps', Hev, Hev', Us, Us', Ul, Ul', E2, E3. split; reflexivity.
@@ -1008,7 +939,7 @@ Section MatrixCell.
 
   Lemma entries_NoDup : forall c, cell_ok k ix c -> NoDup (map fst (cell_entries' c)).
   Proof.
-    intros c Hc. destruct Hc as (_ & _ & _ & _ & _ & _ & _ & _ & _ & _ & _ & _ & _ & _ & Hf & _).
+    intros c Hc. destruct Hc as (_ & _ & _ & _ & _ & _ & _ & _ & _ & _ & _ & _ & _ & Hf & _).
     unfold cell_entries. rewrite map_rev. apply NoDup_rev. rewrite map_map.
     unfold entry. cbn [fst].
     rewrite <- (map_map fst (fun f => (si_of' c, idx str_eqb (ix_fields ix) f, p_of' c, d_of' c))).
@@ -1041,7 +972,7 @@ Section MatrixCell.
   Proof.
     intros c Hc.
     rewrite (combine_zrange_idx str_eqb mx_str_eqb_eq _ Hfields), flat_map_map'. cbn [fst snd].
-    pose proof (Hok c Hc) as (_ & _ & _ & _ & _ & _ & _ & _ & _ & _ & _ & _ & _ & _ & Hf & Hv & _).
+    pose proof (Hok c Hc) as (_ & _ & _ & _ & _ & _ & _ & _ & _ & _ & _ & _ & _ & Hf & Hv & _).
     assert (G : forall l, (forall fv, In fv l -> In fv (cvals c)) ->
               flat_map (fun f : str =>
                           match mlookup (si_of' c, idx str_eqb (ix_fields ix) f, p_of' c, d_of' c) data with
@@ -1066,8 +997,8 @@ Section MatrixCell.
     intros c Hc. unfold matrix_cell, mat. cbn [m_index m_data m_incremental].
     rewrite (vals_of_cell c Hc).
     destruct (cell_ok_keys c (Hok c Hc))
-      as (s & lag & Hps & Hpe & Hev & Hs & Hr1 & Hr2 & _ & _ & _ & _ & _ & Us & Ul).
-    pose proof (Hok c Hc) as (_ & _ & _ & _ & _ & _ & _ & _ & _ & _ & _ & _ & Hkd & Hpv & Hf & _ & Hfm & _).
+      as (s & lag & Hps & Hpe & Hev & Hs & Hr1 & _ & _ & _ & _ & _ & Us & Ul).
+    pose proof (Hok c Hc) as (_ & _ & _ & _ & _ & _ & _ & _ & _ & _ & _ & Hkd & Hpv & Hf & _ & Hfm & _).
     destruct (cvals c) as [|fv0 l0] eqn:Ecv.
     { exfalso. apply Hfields_ne. rewrite <- Hf. reflexivity. }
     cbn [map]. unfold fl_cell. rewrite Ecv, Hkd, Hpv, Hfm, Hps, Hpe, Hev. cbn [map].
@@ -1108,7 +1039,7 @@ Section MatrixCell.
         rewrite F in Hn. inversion Hn as [|? ? Hx _]. apply Hx. left. reflexivity. }
       subst rest. cbn [map]. unfold ckey in Ek. injection Ek as E1 E2 E3.
       assert (Em : cmeta c = m).
-      { pose proof (Hok c Hc) as (_ & _ & _ & _ & _ & _ & _ & _ & _ & _ & _ & _ & _ & _ & _ & _ & _ & Hcm).
+      { pose proof (Hok c Hc) as (_ & _ & _ & _ & _ & _ & _ & _ & _ & _ & _ & _ & _ & _ & _ & _ & Hcm).
         apply (idx_inj meta_seqb mx_meta_seqb_eq (ix_slices ix)); assumption. }
       rewrite <- E2, <- E3, <- Em. exact (matrix_cell_hit c Hc).
   Qed.
@@ -1133,20 +1064,20 @@ Lemma p_of_mono : forall ix k c c1, 0 < exp_res ix -> 0 < step_of k ix ->
   cell_ok k ix c -> cell_ok k ix c1 -> ps c <= ps c1 -> p_of ix c <= p_of ix c1.
 Proof.
   intros ix k c c1 Hres Hstep Hc Hc1 Hle.
-  destruct (cell_ok_keys ix k Hres Hstep c Hc) as (s & lag & Hps & _ & _ & Hs & _ & Hr & _ & _ & _ & _ & _ & Us & _).
-  destruct (cell_ok_keys ix k Hres Hstep c1 Hc1) as (s1 & lag1 & Hps1 & _ & _ & Hs1 & _ & Hr1 & _ & _ & _ & _ & _ & Us1 & _).
+  destruct (cell_ok_keys ix k Hres Hstep c Hc) as (s & lag & Hps & _ & _ & Hs & _ & _ & _ & _ & _ & _ & Us & _).
+  destruct (cell_ok_keys ix k Hres Hstep c1 Hc1) as (s1 & lag1 & Hps1 & _ & _ & Hs1 & _ & _ & _ & _ & _ & _ & Us1 & _).
   rewrite Hps, Hps1 in Hle.
   assert (Hss : s <= s1).
   { destruct (Z_le_gt_dec s s1) as [H|H]; [exact H|]. exfalso.
-    pose proof (month_start_lt s1 s ltac:(lia) ltac:(lia) ltac:(lia)). lia. }
+    pose proof (month_start_lt s1 s ltac:(lia)). lia. }
   nia.
 Qed.
 Lemma d_of_mono : forall ix k c c1, 0 < exp_res ix -> 0 < step_of k ix ->
   cell_ok k ix c -> cell_ok k ix c1 -> cell_lag c <= cell_lag c1 -> d_of ix k c <= d_of ix k c1.
 Proof.
   intros ix k c c1 Hres Hstep Hc Hc1 Hle.
-  destruct (cell_ok_keys ix k Hres Hstep c Hc) as (s & lag & _ & _ & _ & _ & _ & _ & Hl & _ & _ & _ & _ & _ & Ul).
-  destruct (cell_ok_keys ix k Hres Hstep c1 Hc1) as (s1 & lag1 & _ & _ & _ & _ & _ & _ & Hl1 & _ & _ & _ & _ & _ & Ul1).
+  destruct (cell_ok_keys ix k Hres Hstep c Hc) as (s & lag & _ & _ & _ & _ & _ & Hl & _ & _ & _ & _ & _ & Ul).
+  destruct (cell_ok_keys ix k Hres Hstep c1 Hc1) as (s1 & lag1 & _ & _ & _ & _ & _ & Hl1 & _ & _ & _ & _ & _ & Ul1).
   rewrite Hl, Hl1 in Hle. nia.
 Qed.
 
@@ -1172,8 +1103,8 @@ Proof.
   destruct (list_max_map_in cell_lag c0 t') as (c2 & Hc2 & E2 & Hmax2).
   change (list_max (ps c0) (map ps (c0 :: t')) = ps c1) in E1.
   rewrite E1, E2. rewrite <- Et in Hc1, Hc2, Hmax1, Hmax2 |- *.
-  destruct (cell_ok_keys ix k Hres Hstep c1 (Hok c1 Hc1)) as (s1 & lag1 & _ & _ & _ & _ & _ & _ & _ & Ep1 & _ & Hp1 & _).
-  destruct (cell_ok_keys ix k Hres Hstep c2 (Hok c2 Hc2)) as (s2 & lag2 & _ & _ & _ & _ & _ & _ & _ & _ & Ed2 & _ & Hd2 & _).
+  destruct (cell_ok_keys ix k Hres Hstep c1 (Hok c1 Hc1)) as (s1 & lag1 & _ & _ & _ & _ & _ & _ & Ep1 & _ & Hp1 & _).
+  destruct (cell_ok_keys ix k Hres Hstep c2 (Hok c2 Hc2)) as (s2 & lag2 & _ & _ & _ & _ & _ & _ & _ & Ed2 & _ & Hd2 & _).
   rewrite Ep1, Hk, Ed2. cbn [bind].
   rewrite (fold_write_ok msp ix k Hk t (fun c Hc => cell_ok_writable ix k Hres Hstep c (Hok c Hc))).
   cbn [bind]. rewrite app_nil_r.
@@ -1181,7 +1112,7 @@ Proof.
   unfold matrix_to_triangle. rewrite Hinv. unfold matrix_to_triangle_with. cbn [m_index m_np m_nd].
   assert (Einc : tri_is_inc t = false).
   { rewrite Et. unfold tri_is_inc, is_inc.
-    pose proof (Hok c0 ltac:(rewrite Et; left; reflexivity)) as (_ & _ & _ & _ & _ & _ & _ & _ & _ & _ & _ & _ & Hkd & _).
+    pose proof (Hok c0 ltac:(rewrite Et; left; reflexivity)) as (_ & _ & _ & _ & _ & _ & _ & _ & _ & _ & _ & Hkd & _).
     rewrite Hkd. reflexivity. }
   rewrite Einc.
   set (mat := mkMat ix false (p_of ix c1 + 1) (d_of ix k c2 + 1) (flat_map (cell_entries ix k) (rev t))).
@@ -1198,9 +1129,9 @@ Proof.
   assert (Hgrid : NoDup grid).
   { apply NoDup_list_prod'; [exact Hslices|]. apply NoDup_list_prod'; apply zrange_NoDup. }
   pose proof (Hok c Hc) as Hcok.
-  destruct (cell_ok_keys ix k Hres Hstep c Hcok) as (s & lag & _ & _ & _ & _ & _ & _ & _ & _ & _ & Hp & Hd & _).
+  destruct (cell_ok_keys ix k Hres Hstep c Hcok) as (s & lag & _ & _ & _ & _ & _ & _ & _ & _ & Hp & Hd & _).
   assert (Hcm : In (cmeta c) (ix_slices ix)).
-  { destruct Hcok as (_ & _ & _ & _ & _ & _ & _ & _ & _ & _ & _ & _ & _ & _ & _ & _ & _ & H). exact H. }
+  { destruct Hcok as (_ & _ & _ & _ & _ & _ & _ & _ & _ & _ & _ & _ & _ & _ & _ & _ & H). exact H. }
   assert (Hin : In (cmeta c, (p_of ix c, d_of ix k c)) grid).
   { apply in_prod_iff. split; [exact Hcm|]. apply in_prod_iff. unfold mat. cbn [m_np m_nd].
     split; apply zrange_In.
@@ -1223,7 +1154,7 @@ Qed.
 Definition grid_cell (L : Z) (fields : list str) (c : cell) : Prop :=
   exists s e,
     ps c = month_start s /\ pe c = month_end (s + L - 1) /\ ev c = month_end e /\
-    0 <= s /\ 0 < L /\ s + L - 1 <= 1571 /\ 0 <= e <= 1571 /\
+    MINID <= s /\ 0 < L /\ MINID <= e /\
     ckind c = KCum /\ prev c = None /\
     map fst (cvals c) = fields /\ Forall (fun fv => exists x, snd fv = VNum x) (cvals c) /\
     fl_meta (cmeta c) = cmeta c.
@@ -1233,7 +1164,7 @@ Lemma grid_cell_ok : forall t fields ix c,
   ((dev_res ix | exp_res ix) \/ (exp_res ix | dev_res ix)) ->
   In c t -> grid_cell (exp_res ix) fields c -> cell_ok SMin ix c.
 Proof.
-  intros t fields ix c Hix Hn Hc (s & e & Hps & Hpe & Hev & Hs & HL & Hr & He & Hkd & Hpv & Hf & Hv & Hfm).
+  intros t fields ix c Hix Hn Hc (s & e & Hps & Hpe & Hev & Hs & HL & He & Hkd & Hpv & Hf & Hv & Hfm).
   destruct (index_from_triangle_grid t fields ix Hix) as (Hsl & Hfl & Hdr & Hg & _).
   destruct (Hg c Hc) as (Ho & De & _ & Hlo).
   pose proof (index_from_triangle_lag_grid t fields ix Hix HL Hn c Hc) as Dl.
@@ -1265,15 +1196,15 @@ Proof.
   { destruct (Hgc c0 ltac:(rewrite Et; left; reflexivity)) as (s & e & _ & _ & _ & _ & HL & _). exact HL. }
   apply (matrix_round_trip_perm msp SMin t fields ix); try assumption.
   - apply forallb_forall. intros c Hc.
-    destruct (Hgc c Hc) as (s & e & Hps & Hpe & Hev & Hs & HL & Hr & He & _).
+    destruct (Hgc c Hc) as (s & e & Hps & Hpe & Hev & Hs & HL & He & _).
     unfold month_aligned_cell. rewrite Hps, Hpe, Hev.
     rewrite month_start_is_start, !month_end_is_end by lia. reflexivity.
   - unfold step_of. lia.
   - intros c Hc. apply (grid_cell_ok t fields ix c Hix Hn Hc). apply Hgc. exact Hc.
 Qed.
 
-(* Continued in Proofs/MatrixIxP2.v (cells with a subset of the fields, incremental triangles) and
-   Proofs/MatrixIxArr.v (the to_array direction and the full array-frame round trip).
+(* Continued in Proofs/MatrixIxU2.v (cells with a subset of the fields, incremental triangles) and
+   Proofs/MatrixIxUArr.v (the to_array direction and the full array-frame round trip).
    NOT PROVED anywhere: cells holding one-element sample arrays (VArr _ [x] is written as x and comes
    back as VNum), cells with fields outside `fields` (dropped), ms_rich_inverse_step
    (rich_matrix_to_triangle is not modelled in Model/MatrixIx.v beyond the flag). *)
